@@ -34,7 +34,7 @@ def gen_case(seed, k, cap):
         td = G.random_type(rng, ts, G.Opts(p_attr=0.9, max_fields=4, max_variants=4, min_fields=0, p_partial=0.3, all_method=True,
                                            kind=rng.choice(["enum", "enum", "struct"])))
     else:
-        td = G.random_type(rng, ts, G.Opts(p_attr=0.9, max_fields=5, max_variants=4, min_fields=0, p_partial=0.5))
+        td = G.random_type(rng, ts, G.Opts(p_attr=0.9, max_fields=5, max_variants=4, min_fields=0, p_partial=0.5, p_packed=0.5))
     text = S.render(td, rng_for(seed, PROP, "spell", k), extras=False)
     vals = S.values(td, cap * 3 if edge else cap, rng)
     drive = []
